@@ -13,7 +13,7 @@ LEVEL = "exploration"
 LEVEL_TEXT = ("Complete enumeration of (i) every string of length <=4 (thorough <=5) over a 28-character alphabet with one representative per "
               "scanner character class, (ii) every sequence of <=2 lexical fragments over 74 fragments and of 3 over 42 core fragments (thorough: 3 over all 74, 4 over 24) "
               "(all keywords, openers/closers, operators, comment delimiters, quotes, opcodes, macro/.map pieces) with two separators, "
-              "(iii) every character-prefix truncation and every token deletion/duplication of 8 valid programs. Each input runs through "
+              "(iii) every character-prefix truncation and every token deletion/duplication of 8 valid programs, (iv) 18 constructs inside every combination of <=3 nested wrappers (block, scope, macro application, loop, conditional) with and without a table. Each input runs through "
               "MZParser.parse_as_ast, Program.assemble_string_with_emitter and (class i) eval_expression_str under a deterministic event "
               "budget F(n)=20000+4000n counted with sys.monitoring on the repository's code only; an input that exhausts it is re-run "
               "with >10x the budget before being reported. The suite feeds well-formed snippets and three malformed ones.")
@@ -49,7 +49,7 @@ def bound(tier):
     if tier == "thorough":
         return "all strings <=5 over 28 chars; all fragment sequences <=3 over 74 fragments and 4 over 24 fragments x 2 separators; token mutations of 8 programs"
     return ("all strings <=4 over 28 chars; all fragment sequences <=2 over 74 fragments and of length 3 over 42 core fragments, x 2 separators; "
-            "token mutations of 8 programs; pathological nesting/recursion family; all loop-bound pairs in [-3,3]^2")
+            "token mutations of 8 programs; 18 constructs x all <=3-deep wrapper nestings x table on/off; pathological nesting/recursion family; all loop-bound pairs in [-3,3]^2")
 
 
 def cases(tier, seed):
@@ -76,6 +76,8 @@ def cases(tier, seed):
     for i in range(8):
         yield ("mutations", i)
     yield ("special",)
+    for w0 in range(len(WRAPPERS) + 1):
+        yield ("nested", w0)
 
 
 def describe(case, res):
@@ -223,6 +225,7 @@ def run_special():
     impl.write_files({"self.s": ".include 'self.s'\n", "a.s": ".include 'b.s'\n", "b.s": ".include 'a.s'\n"})
     texts = [".include 'self.s'\n", ".include 'a.s'\n", ".macro r() {\nr()\n}\nr()\n", ".macro r(n) {\n.db n\nr(n+1)\n}\nr(0)\n",
              "{" * 400, "(" * 400, "lda " + "(" * 300, "a" * 2000, "'" + "a" * 2000, ".db " + "1," * 500, "/*" * 50, "/* a */" * 50 + "/*",
+             ".macro apply(body) {\n{{body}}\n}\napply({\nnop\n{{body}}\n})\n", ".macro ap2(a, b) {\n{{a}}\n}\nap2({\n{{b}}\n}, {\n{{a}}\n})\n",
              ".for i := 0, 300 {\n.db i\n}\n", ".macro m(a) {\n.if a {\nm(a-1)\n}\n}\nm(300)\n", "-" * 500 + "1", "~" * 300 + "1", "l: " * 300]
     for t in texts:
         evals += run_input(t, ENTRIES_PROG, viol, stats, big=True)
@@ -239,7 +242,48 @@ def run_special():
     return finish(evals, viol, stats, {"input": "pathological nesting / recursion / long tokens; all loop-bound pairs in [-3,3]^2 (literal, constants, macro parameters)"})
 
 
+WRAPPERS = ["block", "scope", "macro", "for", "if"]
+CONSTRUCTS = [".text 'ab'", ".db 1, 2", "lda.w #0x1234", "lbl:\n.dw lbl", "inner(3)", ".incbin 'blob.bin'", "{{blk}}", ".ascii 'x'", ".dl outer_lbl",
+              ".if 1 {\n.db 1\n} else {\n.db 2\n}", ".for q := 0, 2 {\n.db q\n}", "nop", "bra outer_lbl", "zz = 5\n.db zz", "yy := 6\n.db yy",
+              "nosuchmacro(1)", ".dw nosuchsymbol", ".table 't.tbl'\n.text 'ba'"]
+
+
+def wrap(kind, body, level):
+    if kind == "block":
+        return "{\n" + body + "\n}"
+    if kind == "scope":
+        return f".scope ns{level} {{\n" + body + "\n}"
+    if kind == "for":
+        return f".for it{level} := 0, 2 {{\n" + body + "\n}"
+    if kind == "if":
+        return ".if 1 {\n" + body + "\n}"
+    return f".macro wr{level}(blk) {{\n" + body + f"\n}}\nwr{level}({{\n.db 0x7{level}\n}})"
+
+
+def run_nested(w0):
+    """Every construct inside every combination of up to 3 nested wrappers (blocks, named scopes, macro applications, loops,
+    conditionals), with and without a table loaded at top level: all must end (most assemble, some are errors)."""
+    viol = []
+    stats = {}
+    evals = 0
+    impl.write_files(dict(c12.FILES, **{"t.tbl": "10=a\n20=b\n"}))
+    combos = [()] if w0 == len(WRAPPERS) else [(WRAPPERS[w0],) + rest for n in range(0, 3) for rest in itertools.product(WRAPPERS, repeat=n)]
+    for combo in combos:
+        for c in CONSTRUCTS:
+            body = c
+            for level, k in enumerate(reversed(combo)):
+                body = wrap(k, body, level)
+            for table in (True, False):
+                text = (".table 't.tbl'\n" if table else "") + ".macro inner(v) {\n.db v\n}\n*=0x018000\nouter_lbl:\n" + body + "\n"
+                evals += run_input(text, ENTRIES_PROG, viol, stats)
+        if len(viol) > 20:
+            break
+    return finish(evals, viol, stats, {"input": "constructs nested in " + "/".join(combos[-1]) if combos[-1] else "top level"})
+
+
 def run_case(case):
+    if case[0] == "nested":
+        return run_nested(case[1])
     if case[0] == "chars":
         return run_chars(case[1], case[2])
     if case[0] == "frags":
